@@ -1,5 +1,6 @@
 """C17 worker: one process per case, because the subject is a writer opened on the process's real standard output.
 Usage:  python -m verif.worker_c17 <writer-uri> <history> <seed> <shapes>
+        python -m verif.worker_c17 --rdump <rdump arguments...>      (cwd = directory relative names resolve in)
 
 Builds the deterministic record sequence of the case (verif.io_c17.make_records with fixed `_generated` values, so the
 parent can rebuild the identical records), opens RecordWriter(<writer-uri>) - '', '-', 'stream://', 'jsonfile://',
@@ -20,7 +21,26 @@ if os.path.realpath(REPO) != "/repo" or os.environ.get("VERIF_FORCE_PATH"):
 warnings.simplefilter("ignore")
 
 
+def rdump_main(argv):
+    """--rdump <input file> <rdump arguments...>: run the real rdump entry point in this process (cwd = the case directory)."""
+    import flow.record
+    from flow.record.tools import rdump
+
+    status = {"flow_record_file": flow.record.__file__, "created": True, "errors": [], "mode": "rdump"}
+    try:
+        rc = rdump.main(list(argv))
+        status["rdump_rc"] = rc
+    except SystemExit as e:
+        status["rdump_rc"] = e.code
+    except Exception as e:  # noqa: BLE001
+        status["errors"].append({"at": 0, "op": "rdump", "exception": "%s: %s" % (type(e).__name__, str(e)[:300])})
+    sys.stderr.write("C17WORKER " + json.dumps(status) + "\n")
+    sys.stderr.flush()
+
+
 def main(argv):
+    if argv and argv[0] == "--rdump":
+        return rdump_main(argv[1:])
     uri, hist, seed, shapes = argv[0], argv[1], int(argv[2]), argv[3]
     import flow.record
     from flow.record import RecordWriter
